@@ -195,6 +195,9 @@ class ICMP(Service, discriminator="icmp"):
         frame: Frame = kwargs["frame"]
         from_network_interface = kwargs["from_network_interface"]
 
+        if not self._can_perform_action():
+            return False
+
         if not frame.icmp:
             return False
 
